@@ -22,8 +22,6 @@ ImplHeaders(rule, rq) ==
   THEN \E k \in 1..Len(rule.hs) : HttpHdrHolds(rule.hs[k], rq)
   ELSE \A k \in 1..Len(rule.hs) : HttpHdrHolds(rule.hs[k], rq)
 
-Contains(p, s) == \E k \in 1..Len(s) : k + Len(p) - 1 <= Len(s) /\ SubSeq(s, k, k + Len(p) - 1) = p
-
 ImplRpc(rule, rq) ==
   LET fast == /\ Len(rule.hs) = 1 /\ rule.hs[1].n = "service" /\ rule.hs[1].v # ""
               /\ ("FastMatchIgnoresRegexFlag" \in Defects \/ ~rule.hs[1].re)
@@ -51,11 +49,19 @@ ImplQuery(rule, rq) ==
 ImplDsl(rule, rq) == \A k \in 1..Len(rule.ds) :
                        LET r == Ev3(rule.ds[k], 1, rq).v IN IF "DslErrorHolds" \in Defects THEN r # "F" ELSE r = "T"
 
+(* "RegexMatchFromStartOnly": the search is not unanchored, a match has to begin at position 0 *)
+RegexFromStart(re, p) ==
+  CASE re = "b$" -> p = <<"b">> [] re = "a/b" -> IsPrefix(<<"a", "/", "b">>, p) [] re = "/a/.+" -> IsPrefix(<<"/", "a", "/">>, p) /\ Len(p) > 3
+    [] re = "(a|b)/a" -> IsPrefix(<<"a", "/", "a">>, p) \/ IsPrefix(<<"b", "/", "a">>, p)
+    [] re = "[ab]b$" -> p = <<"a", "b">> \/ p = <<"b", "b">>
+    [] OTHER -> TRUE
+
 ImplHolds(rule, rq) ==
   CASE rule.k = "path"   -> ImplHeaders(rule, rq) /\ ImplQuery(rule, rq) /\ rq.path # <<>> /\ LowerP(rq.path) = LowerP(rule.pa)
     [] rule.k = "prefix" -> ImplHeaders(rule, rq) /\ ImplQuery(rule, rq) /\ rq.path # <<>> /\
                             (IF "PrefixAsContains" \in Defects THEN Contains(rule.pa, rq.path) ELSE IsPrefix(rule.pa, rq.path))
     [] rule.k = "regex"  -> ImplHeaders(rule, rq) /\ ImplQuery(rule, rq) /\ rq.path # <<>> /\ PathRe(rule.re, rq.path)
+                            /\ ("RegexMatchFromStartOnly" \in Defects => RegexFromStart(rule.re, rq.path))
     [] rule.k = "dsl"    -> ImplDsl(rule, rq)
     [] rule.k = "rpc"    -> ImplRpc(rule, rq)
     [] rule.k = "var"    -> VarLoop(rule.vs, rq, 1, TRUE, "and")
